@@ -203,6 +203,15 @@ def run(prog, rep):
                         why = "saturation search: the first variable whose update is not empty (a no-op update is skipped; the limit is unchanged)"
                     elif (f is en.fn or f.path.startswith(E.ALG)) and "compute_valid_domain_for_var" in pt(st.args[0]):
                         why = "empty-universe shortcut of a domain quantifier (C02-R1 gives the values; they agree with the generic branch on colours with an empty domain)"
+                if why is None and l == "is_empty" and f is not en.fn and f.path.startswith(E.ALG):
+                    # the emptiness test of the shortcut moved into a private predicate of the module: the same test where it is used
+                    heng2 = terms.Engine(prog, inline=True, hooks=E.eval_hooks())
+                    users2 = [prog.fns[q_] for q_, outs in sorted(edges.items()) if f.qual in outs and q_ != f.qual]
+                    copies = [x for g_ in users2 for x in heng2.summary(g_).all_sites()
+                              if x.kind in ("call", "mcall") and x.name == st.name and x.where() == st.where() and x.args]
+                    if copies and all((g_ is en.fn or g_.path.startswith(E.ALG)) for g_ in users2) and \
+                            all("compute_valid_domain_for_var" in pt(x.args[0]) for x in copies):
+                        why = "empty-universe shortcut of a domain quantifier, tested through a private predicate (C02-R1 gives the values)"
                 if why is None and (st.kind == "op" or l == "is_empty"):
                     # the zero-iteration case of a stabilisation loop spelled out as a guard (`if start == empty { return start }`), directly
                     # or through a small predicate helper: the loop itself leaves after zero rounds for an empty start (its previous
